@@ -26,7 +26,7 @@ Inductive op :=
 | Pop (i : option Z)                      (* l.pop() / l.pop(i) *)
 | Remove (v : Z)
 | Reverse
-| Sort (reverse : bool)
+| Sort (keymod : Z) (reverse : bool)       (* l.sort(key=..., reverse=...); keymod 0: no key, m > 0: key = item mod m *)
 | Clear.
 
 (* what one operation shows: outcome class, contents afterwards, the calls a
@@ -40,6 +40,10 @@ Record obs := mkObs {
 
 Definition ok (l : list Z) (evs : list event) : obs := mkObs (Ok tt) l evs None.
 Definition raise (e : exn) (l : list Z) : obs := mkObs (Raise e) l [] None.
+
+(* the ordering list.sort uses: the items themselves, or their keys (equal keys keep their order) *)
+Definition sort_key (m x : Z) : Z := if m =? 0 then x else x mod m.
+Definition key_leb (m a b : Z) : bool := sort_key m a <=? sort_key m b.
 
 Definition nonempty {A} (l : list A) : bool := match l with [] => false | _ => true end.
 Definition flip {A} (rv : bool) (l : list A) : list A := if rv then rev l else l.
@@ -162,8 +166,8 @@ Section WithValidator.
         end
     | Reverse =>                                           (* l.466-471 *)
         let l' := rev l in ok l' (if nonempty l then [(I 0, l, l')] else [])
-    | Sort r =>                                            (* l.473-495 *)
-        let l' := sort Z.leb r l in ok l' (if nonempty l then [(I 0, l, l')] else [])
+    | Sort m r =>                                          (* l.473-495: key and reverse are passed through *)
+        let l' := sort (key_leb m) r l in ok l' (if nonempty l then [(I 0, l, l')] else [])
     | Clear =>                                             (* l.367-373 *)
         ok [] (if nonempty l then [(I 0, l, [])] else [])
     end.
@@ -192,7 +196,7 @@ Section WithValidator.
     | Imul n => Ok (Some (Z.max 0 (len * n)))
     | Pop _ | Remove _ => Ok (Some (Z.max (len - 1) 0))
     | Clear => Ok (Some 0)
-    | Reverse | Sort _ => Ok None                          (* not overridden *)
+    | Reverse | Sort _ _ => Ok None                          (* not overridden *)
     end.
 
   Definition tlo_step (minlen : Z) (maxlen : option Z) (l : list Z) (o : op) : obs :=
@@ -211,11 +215,12 @@ End WithValidator.
 
 (* The validators of the correspondence harness (atoms: 0..99 the ints, 100+i the
    string "i", >= 200 objects that no Int/CInt validator accepts). *)
-Inductive vkind := VAll | VInt | VCInt.
+Inductive vkind := VAll | VInt | VCInt | VInc.   (* VInc: a non-idempotent conversion, x -> x + 1 on 0..89 *)
 Definition vld_of (k : vkind) (x : Z) : option Z :=
   match k with
   | VAll => Some x
   | VInt => if (0 <=? x) && (x <? 100) then Some x else None
   | VCInt => if (0 <=? x) && (x <? 100) then Some x
              else if (100 <=? x) && (x <? 200) then Some (x - 100) else None
+  | VInc => if (0 <=? x) && (x <? 90) then Some (x + 1) else None
   end.
